@@ -10,7 +10,7 @@ from liquid.exceptions import LiquidError, LiquidInterrupt
 
 POOL = {
     "none": None, "t": True, "f": False, "i0": 0, "i1": 1, "ineg": -3, "ihuge": 10**30, "fl": 1.5, "inf": float("inf"), "ninf": float("-inf"), "nan": float("nan"),
-    "s": "abc", "sempty": "", "snum": "12", "sfloat": "1.5", "sinf": "inf", "snan": "nan", "se": "1e999", "spct": "100% %s %(a)s %d", "sb64": "!!!", "sb64b": "/w==", "shuge": "9" * 5000,
+    "s": "abc", "sempty": "", "snum": "12", "sfloat": "1.5", "sinf": "inf", "snan": "nan", "se": "1e999", "spct": "100% %s %(a)s %d", "sb64": "!!!", "sb64b": "/w==", "shuge": "9" * 5000, "ssnan": "sNaN", "ivhuge": 10**5000, "lsnan": ["sNaN", 1], "linf": ["inf", "-inf"], "sdig": "\u00b2", "sts": "99999999999999",
     "l": [1, "a", None], "lempty": [], "lnest": [[1, [2]], "x"], "ldict": [{"a": 1}, {"a": "x"}, {"b": 2}], "d": {"a": 1, "b": [1]}, "dempty": {}, "r": range(3),
 }
 
@@ -28,11 +28,15 @@ def envs():
     return out
 
 
-def render(env, src, vals):
+def render(env, src, vals, mode="sync"):
     try:
         with warnings.catch_warnings():
             warnings.simplefilter("ignore")
-            env.from_string(src).render(**vals)
+            if mode == "sync":
+                env.from_string(src).render(**vals)
+            else:
+                import asyncio
+                asyncio.run(env.from_string(src).render_async(**vals))
         return None
     except (LiquidError, LiquidInterrupt):
         return None
@@ -50,6 +54,13 @@ TAGS = [
 ]
 
 
+def wit(prefix, err):
+    kind = err.split(":")[0]
+    if "Exceeds the limit" in err and "integer string conversion" in err:
+        kind = "int-max-str-digits"
+    return f"{prefix}:{kind}"
+
+
 def run_templates(vals, limit=None, tier="quick"):
     viol = []
     names = list(vals)
@@ -65,19 +76,20 @@ def run_templates(vals, limit=None, tier="quick"):
                         n += 1
                         err = render(env, src, vals)
                         if err:
-                            viol.append({"id": "non-liquid-exception", "witness": f"{fname}:{err.split(':')[0]}", "source": src, "got": err, "mode": mode})
+                            viol.append({"id": "non-liquid-exception", "witness": wit(fname, err), "source": src, "got": err, "mode": mode})
                             if limit and len(viol) >= limit:
                                 return viol
     for mode, env in es:
         for t in TAGS:
             for a, b in itertools.product(names, repeat=2):
                 src = t.replace("A", a).replace("B", b)
-                n += 1
-                err = render(env, src, vals)
-                if err:
-                    viol.append({"id": "non-liquid-exception", "witness": f"tag:{t[:24]}:{err.split(':')[0]}", "source": src, "got": err, "mode": mode})
-                    if limit and len(viol) >= limit:
-                        return viol
+                for rmode in ("sync", "async") if mode == "STRICT" else ("sync",):
+                    n += 1
+                    err = render(env, src, vals, rmode)
+                    if err:
+                        viol.append({"id": "non-liquid-exception", "witness": wit(f"tag:{rmode}:{t[:24]}", err), "source": src, "got": err, "mode": mode, "render": rmode})
+                        if limit and len(viol) >= limit:
+                            return viol
     run_templates.count = n
     return viol
 
